@@ -566,6 +566,13 @@ def run(ctx):
             calls.append({"api": "put", "target": "/characteristics", "arg": b"x" * n})
             calls.append({"api": "put_json", "target": "/characteristics", "arg": {"characteristics": [{"aid": 1, "iid": i, "value": "v" * 20} for i in range(n // 50)]}})
         calls.append({"api": "get", "target": "/characteristics?id=" + ",".join(f"1.{i}" for i in range(400))})
+        # every body length over a span wider than the header, so that the WHOLE request (line, headers, body) passes through exact multiples
+        # of the 1024-byte block size of the encrypted session, one byte at a time
+        for base in (1024, 2048) if quick else (1024, 2048, 3072, 4096):
+            for n in range(base - 160, base - 60):
+                calls.append({"api": "put", "target": "/characteristics", "arg": b"y" * n})
+            for n in range(base - 120, base - 20, 1 if not quick else 2):
+                calls.append({"api": "get", "target": "/characteristics?id=" + "1" * n})
         for i in range(0, len(calls), 25):
             work.append(("lowlevel", {"host": host, "calls": calls[i : i + 25]}))
         work.append(("pairing_api", {"host": host, "max_ids": 3 if quick else 5}))
